@@ -4,6 +4,10 @@ case = {"h": [item, …]}; item (times in ticks of 1/8 s, ids = creation index o
   ["adv", n] | ["pump", [n, …]]                      top level only
   ["cl", n, [item, …]]                               clock.callLater(n, f); f performs the nested items
   ["x", id] | ["r", id, n] | ["d", id, n] | ["look"]  cancel / reset(n) / delay(n) / getDelayedCalls()+active()
+
+The model line also carries the model's evaluation of the domain predicates of the hypothesis-free time-order theorems
+(`NonNeg`, `Admissible`: lean/TwistedModel/Reactor/ClockDomain.lean); `compare` checks them against this file's own
+evaluation (`_neg`, and `adm` in the oracle's walk over the real Clock's trace).
 """
 import itertools
 
@@ -21,9 +25,13 @@ ASSUMES = [
     "callables scheduled on the Clock return normally (an exception leaves advance() with due calls unrun — Clock does not catch)",
     "callables do not call Clock.advance/pump re-entrantly (not in the property's operation list; not modelled)",
     "times are dyadic floats of small magnitude, so float +,-,<,<= are exact (asserted per observation)",
-    "run_order_nondecreasing needs: no operation moves a call to a time earlier than a call that has already run "
-    "(causal histories; e.g. all delays/resets/advances non-negative) — negative inputs are run on the real code by the tie and by the "
-    "unconditional oracle checks (min-first, exactly-once, first-advance, getDelayedCalls)",
+    "the time-order clause is proved with no hypothesis on the execution for histories in which every callLater delay, "
+    "reset/delay argument and advance/pump amount is >= 0 (run_order_nondecreasing_nonneg, via causal_of_nonneg) and, more "
+    "generally, when negative delay() arguments leave the call at or after seconds() (run_order_nondecreasing_admissible); "
+    "outside that domain (negative callLater/reset/advance, delay() into the past) it holds for causal histories "
+    "(run_order_nondecreasing) and is false otherwise for any scheduler (order_needs_causal_counterexample) — such inputs "
+    "are still run on the real code by the tie and by the unconditional oracle checks (min-first, exactly-once, "
+    "first-advance, getDelayedCalls)",
 ]
 TRUSTED = ["list.sort(key=) is a stable sort (modelled by a stable insertion sort; every stable sort gives the same list)",
            "list.remove/pop(0)/append semantics as transcribed"]
@@ -31,10 +39,15 @@ MANIFEST = {
     "text": "Lean theorems (TwistedProps/C09.lean) over ALL histories of callLater/cancel/reset/delay/advance/pump with nested "
             "scripts: invariants (getDelayedCalls = active calls, no duplicates, run-count = called flag, cancelled never runs), "
             "advance terminates through its own loop condition and leaves no due call, calls never run early, run times are "
-            "nondecreasing for causal histories, same-time never-rescheduled calls run in creation order; the model (object store + "
+            "nondecreasing for every history without negative delays/resets/advances (no hypothesis on the execution; also for "
+            "negative delay() arguments that keep the call at or after seconds(), and for causal histories in general; "
+            "a negative-delay counterexample shows the restriction is needed), same-time never-rescheduled calls run in creation "
+            "order; the model (object store + "
             "reference list + stable sort, as in task.py/base.py) is tied to the real Clock by differential runs of whole histories.",
     "note": "trusts Lean kernel, the hand-written model of Clock/DelayedCall (differentially tied), stability of list.sort, float exactness on dyadic inputs",
-    "technique": "Lean 4 proof (state invariants by induction over scripts, loop fuel and histories) + differential tie + trace oracle",
+    "technique": "Lean 4 proof (state invariants by induction over scripts, loop fuel and histories; a parameter-guarded "
+                 "version of that induction discharges the causality hypothesis on non-negative/admissible histories) + "
+                 "differential tie (traces and the theorems' domain predicates) + trace oracle",
     "design_ref": "DESIGN.md §7.2 C09",
 }
 
@@ -157,10 +170,29 @@ class _Bad(Exception):
 
 
 def oracle(case, out):
+    return _walk(case, out)[0]
+
+
+def compare(case, impl_out, model_out):
+    """trace equality + the model's evaluation of the theorems' domain predicates (NonNeg, Admissible) against this
+    file's own evaluation of them on the real Clock's trace"""
+    trace, sep, dom = model_out.rpartition(" | ")
+    if not sep or trace != impl_out:
+        return False
+    bad, adm = _walk(case, impl_out)
+    if bad is not None:
+        return True     # the oracle reports it; the domain flags are about spec-conforming traces
+    return dom == f"nonneg={0 if _neg(case['h']) else 1} admissible={1 if adm else 0}"
+
+
+def _walk(case, out):
+    """-> (oracle verdict, history admissible?)"""
     if out.startswith("!raised"):
-        return {"key": "exception-escaped", "detail": out}
+        return {"key": "exception-escaped", "detail": out}, False
     toks = [] if out == "-" else out.split(" ")
-    S = {"p": 0, "now": 0, "nxt": 0, "last": None, "causal": True}
+    # "adm": the history so far is in the domain of run_order_nondecreasing_admissible (TwistedProps.C09.Admissible):
+    # callLater/reset/advance arguments >= 0, every effective delay() >= 0 or leaving the call at/after the clock's time
+    S = {"p": 0, "now": 0, "nxt": 0, "last": None, "causal": True, "adm": True}
     eff, status, body, resched = {}, {}, {}, set()
 
     def peek():
@@ -190,12 +222,16 @@ def oracle(case, out):
         k = op[0]
         if k == "cl":
             i = S["nxt"]
+            if op[1] < 0:
+                S["adm"] = False
             take(f"+{i}@{S['now'] + op[1]}", "sched-time")
             S["nxt"] += 1
             status[i], body[i] = "pending", op[2]
             settime(i, S["now"] + op[1])
         elif k in ("x", "r", "d"):
             i = op[1]
+            if k == "r" and op[2] < 0:
+                S["adm"] = False
             if i >= S["nxt"]:
                 take(f"?{i}", "op-result")
             elif status[i] != "pending":
@@ -208,6 +244,8 @@ def oracle(case, out):
                 resched.add(i)
                 settime(i, S["now"] + op[2])
             else:
+                if op[2] < 0 and eff[i] + op[2] < S["now"]:
+                    S["adm"] = False
                 take(f"d{i}@{eff[i] + op[2]}", "sched-time")
                 resched.add(i)
                 settime(i, eff[i] + op[2])
@@ -224,6 +262,8 @@ def oracle(case, out):
 
     def advance(n):
         take("A", "trace-shape")
+        if n < 0:
+            S["adm"] = False
         S["now"] += n
         while (peek() or "").startswith("("):
             run()
@@ -269,12 +309,16 @@ def oracle(case, out):
             do_op(op, True)
         if S["p"] != len(toks):
             raise _Bad("trace-shape", f"unexpected trailing events from {S['p']}: {toks[S['p']:S['p'] + 3]}")
-        if not S["causal"] and not _neg(case["h"]):
-            # the sufficient static condition for the hypothesis of run_order_nondecreasing
-            raise _Bad("causal", "a history without negative delay/reset/advance moved a call before one that already ran")
+        if not S["causal"] and (S["adm"] or not _neg(case["h"])):
+            # causal_of_nonneg / causal_of_admissible: on this domain the hypothesis of run_order_nondecreasing is a theorem
+            raise _Bad("causal", "a history without negative delay/reset/advance (or only with delay() arguments keeping the "
+                                 "call at/after the current time) moved a call before one that already ran")
+        if S["adm"] and S["last"] is not None and S["last"] > S["now"]:
+            # ran_not_after_now_admissible
+            raise _Bad("ran-early", f"a call scheduled for {S['last']} ran although the clock only reached {S['now']}")
     except _Bad as b:
-        return {"key": b.key, "detail": b.detail}
-    return None
+        return {"key": b.key, "detail": b.detail}, S["adm"]
+    return None, S["adm"]
 
 
 # ------------------------------------------------------------------------------------------
